@@ -61,12 +61,16 @@ pub mod shadow {
         #[allow(non_camel_case_types)] #[derive(Clone, Copy, Debug, PartialEq)] pub struct $name(pub $core);
         impl $name {
             pub const BITS: core::primitive::u32 = <$core>::BITS;
+            pub const TYID: core::primitive::u8 = $tyid;
             pub fn checked_add(self, o: Self) -> Option<Self> { self.0.checked_add(o.0).map($name) }
             pub fn checked_sub(self, o: Self) -> Option<Self> { self.0.checked_sub(o.0).map($name) }
             pub fn checked_mul(self, o: Self) -> Option<Self> { let (s, v) = uf(2, $tyid, self.0 as u128, o.0 as u128); if s { Some($name(v as $core)) } else { None } }
             // a zero divisor is decided here (not abstracted): checked_div / checked_rem return None on zero
             pub fn checked_div(self, o: Self) -> Option<Self> { if o.0 == 0 { return None; } let (s, v) = uf(3, $tyid, self.0 as u128, o.0 as u128); if s { Some($name(v as $core)) } else { None } }
             pub fn checked_rem(self, o: Self) -> Option<Self> { if o.0 == 0 { return None; } let (s, v) = uf(4, $tyid, self.0 as u128, o.0 as u128); if s { Some($name(v as $core)) } else { None } }
+            // wrapping_rem: Rust's `%` without the overflow report -- `x % -1` is 0 for every x (decided here, not abstracted), panics on a zero divisor,
+            // otherwise the same abstract machine remainder checked_rem goes to
+            pub fn wrapping_rem(self, o: Self) -> Self { if o.0 == 0 { panic!("attempt to calculate the remainder with a divisor of zero") } if <$core>::MIN != 0 && o.0 == !0 { return $name(0); } $name(uf(4, $tyid, self.0 as u128, o.0 as u128).1 as $core) }
             pub fn checked_shl(self, n: u32) -> Option<Self> { self.0.checked_shl(n.0).map($name) }
             pub fn checked_shr(self, n: u32) -> Option<Self> { self.0.checked_shr(n.0).map($name) }
             // unchecked shifts keep Rust's semantics (overflow check = panic) for any integer amount type
@@ -92,6 +96,7 @@ pub mod shadow {
             pub fn wrapping_shl(self, n: u32) -> Self { $name(self.0.wrapping_shl(n.0)) }
             pub fn wrapping_shr(self, n: u32) -> Self { $name(self.0.wrapping_shr(n.0)) }
         }
+        impl PartialEq<core::primitive::i32> for $name { fn eq(&self, o: &core::primitive::i32) -> bool { self.0 as core::primitive::i128 == *o as core::primitive::i128 } }
         impl core::ops::BitXor for $name { type Output = $name; fn bitxor(self, o: Self) -> Self { $name(self.0 ^ o.0) } }
         impl core::ops::BitAnd for $name { type Output = $name; fn bitand(self, o: Self) -> Self { $name(self.0 & o.0) } }
         impl core::ops::BitOr for $name { type Output = $name; fn bitor(self, o: Self) -> Self { $name(self.0 | o.0) } }
@@ -178,7 +183,9 @@ mod verif {
             // `* / %`: the same abstract machine operation the folder's call goes to (see `uf`)
             MUL => shadow::$t::checked_mul(shadow::$t(x), shadow::$t(y)).map(|v| v.0),
             DIV => shadow::$t::checked_div(shadow::$t(x), shadow::$t(y)).map(|v| v.0),
-            REM => shadow::$t::checked_rem(shadow::$t(x), shadow::$t(y)).map(|v| v.0),
+            // remainder with the sign of the dividend: undefined for a zero divisor only; `x % -1` is 0 for EVERY x (the property: the exact value whenever it is
+            // representable -- D111: the machine's checked remainder refuses MIN % -1); otherwise the abstract machine remainder
+            REM => if y == 0 { None } else if <$t>::MIN != 0 && y == !0 { Some(0) } else { Some((uf(4, shadow::$t::TYID, x as u128, y as u128).1) as $t) },
             AND => Some(x & y), OR => Some(x | y), XOR => Some(x ^ y),
             // x * 2^y, when the kind can hold it: no set bit (no sign change) may be shifted out -- shifting back gives x
             SHL => if ($y as i128) < 0 || ($y as i128) >= w { None } else { let v = x << ($y as u32); if (v >> ($y as u32)) == x { Some(v) } else { None } },
